@@ -30,6 +30,15 @@ def check(ctx, payload, expect_id, defined, full_body, rep=None):
     from pyrtcm import RTCMMessage
 
     num = (payload[0] << 4) | (payload[1] >> 4)
+    if len(payload) >= 4 and payload[0] == 0:
+        # a two-byte runt whose bits are the NEXT bits of this payload is offered first (and refused or stubbed): what
+        # a definition lookup remembers about one payload must not be found again under another
+        for runt in (payload[1:3], payload[:2]):
+            try:
+                RTCMMessage(payload=runt)
+            except Exception:
+                pass
+        ctx.hit("runt_neighbours_first")
     rep = rep or streams.pick_rep(ctx.rng, 0.7)  # the same bytes as bytes / bytearray / subclass / memoryview
     ctx.hit("rep:" + rep)
     params = {"payload": payload.hex(), "expect": expect_id, "defined": defined, "rep": rep}
@@ -143,6 +152,47 @@ def collider_top(frame, rng):
     return out if refcrc.wellformed(out) is None else None
 
 
+def long_one_number(ctx):
+    import io
+
+    from pyrtcm import RTCMReader
+
+    frs = [refcrc.frame(bytes([0xFF, 0xE0, i & 0xFF, i >> 8])) for i in range(256)]
+    n_ = 70000
+    try:
+        got = sum(1 for raw, m in RTCMReader(io.BytesIO(b"".join(frs[i % 256] for i in range(n_))), quitonerror=0)
+                  if m.identity == "4094" and m.payload == raw[3:-3])
+    except Exception as e:
+        got = f"{type(e).__name__}: {e}"
+    if got != n_:
+        ctx.violation("reader-stub-lost", f"{n_} frames of the undefined number 4094 through one reader: {got} stubs "
+                      f"returned", {"long": "many-4094"})
+        return False
+    ctx.hit("long_run_one_number")
+    return True
+
+
+def long_foreign(ctx, seed):
+    import io
+    import random
+
+    from pyrtcm import RTCMReader
+
+    rng = random.Random(seed)
+    mid = b"".join(streams.nmea(rng, 12) if rng.random() < 0.6 else streams.ubx(rng, 8) for _ in range(2400))
+    fr = refcrc.frame(streams.rand_unknown_payload(rng, 12))
+    try:
+        got = [bytes(raw) for raw, m in RTCMReader(io.BytesIO(mid + fr), quitonerror=0)]
+    except Exception as e:
+        got = f"{type(e).__name__}: {e}"
+    if got != [fr]:
+        ctx.violation("reader-stub-lost", f"an undefined-number frame behind 2400 NMEA / UBX items: reader returned "
+                      f"{got if isinstance(got, str) else len(got)}", {"long": "foreign-run", "seed": seed})
+        return False
+    ctx.hit("long_foreign_run")
+    return True
+
+
 def run(ctx):
     rng = ctx.rng
     defs, _ = refmodel.tables()
@@ -167,6 +217,14 @@ def run(ctx):
             check(ctx, p, str((p[0] << 4) | (p[1] >> 4)), False, False)
             reader_case(ctx, [p, streams.rand_unknown_payload(rng, 5)])
             ctx.hit("frame_as_payload")
+    # long runs through ONE reader: tens of thousands of frames of one undefined number; thousands of foreign items
+    # before an undefined frame
+    if ctx.worker % 4 == 0 or not ctx.quick:
+        if not long_one_number(ctx):
+            return
+    if ctx.worker % 4 == 1 or not ctx.quick:
+        if not long_foreign(ctx, rng.getrandbits(32)):
+            return
     for num in range(4096):
         if not ctx.mine(num):
             continue
@@ -225,6 +283,12 @@ def finalize(tier, counters, notes):
 
 
 def replay(ctx, p):
+    if "long" in p:
+        if p["long"] == "many-4094":
+            long_one_number(ctx)
+        else:
+            long_foreign(ctx, p["seed"])
+        return
     if "reader" in p:
         reader_case(ctx, [bytes.fromhex(x) for x in p["reader"]])
         return
